@@ -63,6 +63,18 @@ def canon_result(r, yarl):
     return repr(r)
 
 
+HOUSEKEEPING = []      # failures of the harness's OWN calls of the public cache API (reported as an event, never fatal)
+
+
+def reset_caches(yarl):
+    """yarl.cache_configure() with the default sizes, as housekeeping between runs; if the public call itself fails that is
+    an observation (an event with `crash`), not a reason for the harness to die"""
+    try:
+        yarl.cache_configure()
+    except Exception as e:  # noqa: BLE001
+        HOUSEKEEPING.append(exc_name(e) + ":" + str(e)[:160])
+
+
 def clear_all_lru(yarl):
     """empty EVERY functools cache of the yarl modules -- discovered dynamically, so a cache added by a later change is
     found too (the cold run must really be cold)"""
@@ -131,7 +143,7 @@ def run_history(yarl, steps, mode, run_id, rnd):
     pool = [yarl.URL(POOL[0]), yarl.URL(POOL[3])]
     gen = [0, 1]            # generation id of each slot object (identity facts)
     nextgen = 2
-    yarl.cache_configure()   # defaults
+    reset_caches(yarl)   # defaults
     yield {"kind": "cache_configure", "mode": mode, "step": -2, "facts": [],
            "sizes": {"idna_encode": 256, "idna_decode": 256, "encode_host": 512}}
     if mode == "warm":
@@ -312,6 +324,9 @@ def main():
         events = []
         for mode in ("cold", "faulted", "warm", "cold"):
             events += list(run_history(yarl, steps, mode, f"{h}-{mode}{len(events)}", random.Random(seed + h)))
+        if HOUSEKEEPING:
+            events.append({"kind": "housekeeping", "facts": [], "crash": "cache_configure():" + HOUSEKEEPING[0]})
+            del HOUSEKEEPING[:]
         for n, ev in enumerate(events):
             ev["id"] = f"{be}.h{seed}.{h}.{n}"
         with open(f"{outdir}/hist-{seed}-{h}.json", "w") as f:
